@@ -11,6 +11,7 @@ import os, sys, json, collections, random, time
 from fractions import Fraction as Fr
 import vf, solve as S, polygen as G, e2e
 import c16_access as ACC
+if hasattr(sys, "set_int_max_str_digits"): sys.set_int_max_str_digits(0)      # exact rationals with radii like 2^-20000 are printed in decimal for bin/accq
 
 PH = {1: "float", 2: "dpe", 3: "mp"}
 
